@@ -1441,10 +1441,11 @@ PROPS = {}
 NOT_YET = {}
 
 PROPS['C16'] = dict(
-    module='FlacModel.Props.C16',
+    module='FlacModel.Props.C16b',
     theorems=['Flac.C16.stream_no_fabrication', 'Flac.C16.stream_results_ascending', 'Flac.C16.no_sync_no_loss_partial',
               'Flac.C16.skipUntilFF_no_ff', 'Flac.C16.no_sync_no_loss', 'Flac.C16.tail_noSync_eof', 'Flac.C16.clean_stream_reads_all',
-              'Flac.decodeFrame_sync', 'Flac.decodeFrame_ext', 'Flac.C16.written_frame_standalone', 'Flac.C16.written_stream_reads_back'],
+              'Flac.decodeFrame_sync', 'Flac.decodeFrame_ext', 'Flac.C16.written_frame_standalone', 'Flac.C16.written_stream_reads_back',
+              'Flac.C16.accepted_rate_self_describing', 'Flac.C16.streaminfo_only_rate_refused', 'Flac.C16.accepted_bps_self_describing', 'Flac.C16.accepted_block_size_self_describing'],
     components=[StreamRW(), StreamRead()],
     rule='streamrw: 1-6 frames with independently drawn rate/channels/depth/length written by one FlacStreamWriter, '
          'garbage (none / 0xFF-free / with planted FF F8|F9) between them, source segmented (max-N reads or random split points), '
@@ -1457,7 +1458,10 @@ PROPS['C16'] = dict(
           'clean_stream_reads_all (any sequence of standalone frames with sync-free bytes around them is returned in order, then end of stream; nothing relates one '
           'frame\'s parameters to the next), written_frame_standalone (every frame well-formed WITHOUT STREAMINFO context decodes from its own header alone - from '
           'C01.frame_roundtrip) and written_stream_reads_back (their composition over serialized frames). The model is tied to the code on '
-          'every run by generated frame sequences with garbage and source segmentations, compared result by result; writes longer than 65535 samples per channel must be refused.',
+          'every run by generated frame sequences with garbage and source segmentations, compared result by result; writes longer than 65535 samples per channel must be refused. '
+          'Writer side (Props/C16b.lean over Model/RateEnc.lean, SampleRate::try_from and the stream writer\'s rate rule regenerated into Gen/RateEnc.lean): accepted_rate_self_describing - every rate '
+          'FlacStreamWriter::write accepts gets a header code under which the header alone carries it (the rate condition of FrameWf none); streaminfo_only_rate_refused; accepted_bps_self_describing and accepted_block_size_self_describing the same for the bit depth and the block length (1-65535); the driver predicts the rate, depth and block-size codes '
+          'of every frame written (and every refusal) from the requested parameters.',
     note='Trusted: Lean kernel, translate.py, harness. Segmentation independence holds of the model by construction and is only exhibited for the '
          'implementation; bitstream-io/BufRead are modelled, not verified.',
     trusted_base=COMMON_TRUST,
@@ -1533,12 +1537,13 @@ PROPS['C02'] = dict(
 )
 
 PROPS['C19'] = dict(
-    module='FlacModel.Props.C19b',
+    module='FlacModel.Props.C19c',
     theorems=['Flac.C19.subframe_bits_le_verbatim', 'Flac.C19.pick_le_fixed', 'Flac.C19.constant_block_small_partial',
               'Flac.C19.constant_block_small', 'Flac.C19.fixed_zero_candidate_bits', 'Flac.C19.zero_residual_bits',
               'Flac.C19.zero_partition_is_constant', 'Flac.C19.all_zero_is_constant_subframe',
               'Flac.C19.header_bits_le', 'Flac.C19.frame_bytes_bound',
-              'Flac.C19.encDiff_const', 'Flac.C19.argminFirst_second', 'Flac.C19.constant_block_fixed_zero'],
+              'Flac.C19.encDiff_const', 'Flac.C19.argminFirst_second', 'Flac.C19.constant_block_fixed_zero',
+              'Flac.C19.encResidual_zero', 'Flac.C19.constant_block_fixed_small', 'Flac.C19.constant_block_chosen_small'],
     components=[EncFrame('size')],
     rule='every generated frame of the real encoder is measured against 16 + ceil(sum over channels of (41 + n x depth_i))/8 + 2 bytes '
          '(depth+1 for one channel of a stereo pair); constant blocks against 18 + 12 bytes per channel; shapes include full-scale noise, '
@@ -1549,8 +1554,9 @@ PROPS['C19'] = dict(
           'zero_partition_is_constant, regenerated from Partition::new; at most encMaxPartitions of them) costs at most 8 + wasted + 4 warm-up samples + 646 bits, so the subframe written for a '
           'constant channel is bounded independently of the block length n, for every LPC candidate and depth; header_bits_le: a frame header is at most 15 bytes + CRC-8; frame_bytes_bound composes them.',
     note='constant_block_fixed_zero (Props/C19b.lean, over Model/FixedPick.lean = the accumulation loop and min_by_key of encode_fixed_subframe): a block of n >= 2 equal non-zero samples is written by '
-         'encode_fixed_subframe as FIXED order 1 with all-zero residuals; the driver compares order and residuals of the FIXED subframe the encoder writes for every mono block of equal non-zero samples with fixedPick (model-vs-code correspondence; elsewhere the choice among the FIXED orders is a heuristic no property constrains). Which partition order '
-         'min_by_key keeps in write_residuals is not modelled: the driver checks on every generated constant block that each written subframe is CONSTANT or FIXED/LPC over zero-width partitions only, '
+         'encode_fixed_subframe as FIXED order 1 with all-zero residuals; the driver compares order and residuals of the FIXED subframe the encoder writes for every mono block of equal non-zero samples with fixedPick (model-vs-code correspondence; elsewhere the choice among the FIXED orders is a heuristic no property constrains). constant_block_fixed_small / constant_block_chosen_small (Props/C19c.lean) compose it '
+         'with write_residuals (encResidual: every partition of an all-zero residual is the zero-width escape, for EVERY coding method, candidate partition order and Rice search; at most MAX_PARTITIONS parts by C15.candidates_fit) '
+         'into the unconditional bound. Which partition order min_by_key keeps in write_residuals is quantified over, not modelled: the driver checks on every generated constant block that each written subframe is CONSTANT or FIXED/LPC over zero-width partitions only, '
          'and the oracle measures the tighter 12 bytes per channel.',
     trusted_base=COMMON_TRUST,
     assumptions=['the recorded candidate size equals the bits later played back (BitRecorder is trusted)'],
@@ -1628,11 +1634,12 @@ PROPS['C08'] = dict(
 )
 
 PROPS['C09'] = dict(
-    module='FlacModel.Props.C09b',
+    module='FlacModel.Props.C09c',
     theorems=['Flac.C09.record_points', 'Flac.C09.seekpoints_invariant', 'Flac.C09.truePoints_truthful', 'Flac.C09.filter_sublist',
               'Flac.C09.written_points_truthful', 'Flac.C09.points_sorted', 'Flac.C09.finalize_preserves_metadata_len', 'Flac.C09.frame_size_extrema',
               'Flac.C09.placeholders_match', 'Flac.C09.filter_length_key', 'Flac.C09.reserved_slots_exact', 'Flac.C09.regenerated_equals_written_declared',
-              'Flac.C09.regenerated_equals_written_padding', 'Flac.C09.regenerate_defined'],
+              'Flac.C09.regenerated_equals_written_padding', 'Flac.C09.regenerate_defined',
+              'Flac.C09.md5_input_front_end_independent', 'Flac.C09.md5_input_is_encoded_pcm'],
     components=[EncFile()],
     rule='450 (quick) / 30000 (thorough) files: byte/sample/channel writer x seek policy {off, default 10 s, every 1/2/5 frames, every 1/2/255 s at low rates} x '
          'total declared or discovered at finalize x padding {absent, too small for a table, exactly one/two points, ample, default} x writer pre-positioned at a '
@@ -1642,7 +1649,7 @@ PROPS['C09'] = dict(
           'written_points_truthful: every defined point finalize can write, under either interval filter, names a real frame (this discharges C06\'s TableTruthful for files '
           'written by the crate); points_sorted; finalize_preserves_metadata_len: in all three layout cases SEEKTABLE + first PADDING occupy the same bytes after as before, so the '
           'rewrite cannot reach the first frame; frame_size_extrema: recorded min/max are bounds attained within (0, 2^24-1).',
-    note='STREAMINFO\'s MD5 = md5 of the little-endian PCM (the bytes fed to it are C08.byte_frontend_md5), truthful channel/rate/depth fields and untouched frames during the header rewrite are decided '
+    note='What is hashed (Props/C09c.lean: md5_input_front_end_independent, md5_input_is_encoded_pcm) is the little-endian serialisation of exactly the encoded samples for every front-end, byte order and chunking; that STREAMINFO stores the digest of those bytes (md5 0.8, trusted), truthful channel/rate/depth fields and untouched frames during the header rewrite are decided '
          'by the file-level L0 walk and harness observations on every case, not by a theorem. Regeneration (Props/C09b.lean): reserved_slots_exact, regenerated_equals_written_declared and '
          'regenerated_equals_written_padding show that the table finalize writes is generate_seektable of the frames written, in both layouts; that FrameIterator finds exactly those frames is C01/C16 '
          'and is exhibited by the regen_ok observation of the harness.',
@@ -1906,6 +1913,15 @@ class ParCompare(Component):
             pcm, shape = gen.pcm_multi(rng, n, ch, bps)
             o = gen.option_fields(rng)
             base.append(f'wr fe={rng.choice(["byte", "sample", "chan"])} ch={ch} bps={bps} rate={rng.choice([44100, 48000, 96000])} pcm={gen.join(pcm)} chunks=- endian=le ' + gen.fields_str(o))
+        # numerically sensitive inputs: a pure tone over a full 4096-sample block with the maximal LPC order makes the normal equations
+        # ill-conditioned, so a last-bit difference in the autocorrelation (e.g. a reduction whose order depends on the pool) reaches the
+        # quantised coefficients and the bytes
+        import math
+        for bps, ch, per in ((16, 1, 37.0), (24, 1, 101.3), (16, 2, 64.0), (24, 2, 19.7)):
+            amp = (1 << (bps - 1)) - 1
+            tone = [int(round(amp * 0.9 * math.sin(2 * math.pi * i / per))) for i in range(4096)]
+            pcm = tone if ch == 1 else [v for i, x in enumerate(tone) for v in (x, tone[(i * 3) % 4096])]
+            base.append(f'wr fe=sample ch={ch} bps={bps} rate=44100 pcm={gen.join(pcm)} chunks=- endian=le lpc=32 po=5')
         serial, herr = vlib.run_harness('release', base)
         out = []
         for c, s_ in zip(base, serial + ['harness-died'] * (len(base) - len(serial))):
